@@ -360,7 +360,9 @@ def run(chk):
                     continue
                 rng = strip(st["range"])
                 rt = rng.get("t", "") or ""
-                elem, direction = None, None
+                lvt = (st.get("lv") or {}).get("t", "")
+                me = re.search(r"(TensorData|NodeData)", lvt)
+                elem, direction = (me.group(1) if me else None), "unknown"
                 m = re.search(r"forward_list<([^<>]*(?:<[^<>]*>)?[^<>]*)>", rt)
                 if m:
                     elem, direction = short(m.group(1).strip()), "forward"
@@ -389,9 +391,9 @@ def run(chk):
             nlist += 1
             chk.saw(fn)
             rdir = {d for _, _, d in rs}
-            ok = (direction == "reversed") == (rdir == {"reversing"}) and len(rdir) == 1
+            ok = direction != "unknown" and (direction == "reversed") == (rdir == {"reversing"}) and len(rdir) == 1
             chk.ob("C06-D8.listorder", fn.key, "list of %s written %s, restored by %s" % (elem, direction, "/".join(sorted(rdir))), ok, fn.loc(st),
-                   "" if ok else "after write + read the list is in the opposite order: ties between equally weighted tensors are broken differently and a second write differs",
+                   "" if ok else "the order in which the writer walks the list cannot be established" if direction == "unknown" else "after write + read the list is in the opposite order: ties between equally weighted tensors are broken differently and a second write differs",
                    "reverse on exactly one side")
     chk.floor("C06-D8.listorder", nlist, 2, "serialised forward_list element types (both modes)")
 
